@@ -152,6 +152,14 @@ func genXML(t *tape.Tape, o GenOpts) *World {
 	if sh.NItemFields > 0 {
 		m.Item = &ItemModel{XPath: "item", Fields: gn, IntField: gn[sh.ItemIntIdx]}
 	}
+	// ... or as an attribute of an element whose child elements all have one name (the items' wrapper)
+	wrapField := -1
+	if attrField < 0 && sh.NItemFields > 0 && len(fn)-1 != sh.IntIdx && len(fn) > 2 && t.Chance("xml.items-wrapper", 1, 4) {
+		wrapField = len(fn) - 1
+		m.Fields[wrapField] = "items/@w"
+		m.Item.XPath = "items/item"
+		w.SetTag("xml.array-like-attribute", fmt.Sprint(wrapField))
+	}
 	decls, js, ext := GenDecls(t, m, declOptsOf(o))
 	addPoisonable(decls, m.IntField)
 	addJSPoisonable(t, w, decls, o, m.Fields[:len(fn)])
@@ -190,8 +198,14 @@ func genXML(t *tape.Tape, o GenOpts) *World {
 					sb.WriteString("<" + el + ` u="` + xmlEsc.Replace(v) + `">t</` + el + ">")
 					continue
 				}
+				if i == wrapField {
+					continue // goes onto the items' wrapper
+				}
 				sb.WriteString("<" + el + ">" + xmlEsc.Replace(v) + "</" + el + ">")
 			}
+		}
+		if wrapField >= 0 {
+			sb.WriteString(`<items w="` + xmlEsc.Replace(r.Vals[wrapField]) + `">`)
 		}
 		for _, it := range r.Items {
 			sb.WriteString("<item>")
@@ -199,6 +213,9 @@ func genXML(t *tape.Tape, o GenOpts) *World {
 				sb.WriteString("<" + gn[j] + ">" + xmlEsc.Replace(v) + "</" + gn[j] + ">")
 			}
 			sb.WriteString("</item>")
+		}
+		if wrapField >= 0 {
+			sb.WriteString("</items>")
 		}
 		switch r.NS {
 		case 1:
